@@ -57,6 +57,21 @@ CHECKS = {
  "C20": ("deterministic simulation: seeded histories of fire / fail / add-callback / match / extract operations on one Deferred with garbage collection under simulator control and a recording Twisted log observer; plus scripted tests under SynchronousDeferredRunTest compared with the plain runner",
          "seeded exploration: exactly one classifier matches per state, inner matcher handed the exact value/Failure, extract_result returns/raises, matching never fires, later callbacks see the original value, inspected failures are not logged at collection, sync runner equals direct return/raise",
          "after a failure was inspected or extract_result was used the Deferred's later result is not compared; sampling, not proof", "3/C20"),
+ "C08": ("deterministic simulation of the reporting pipeline: a scripted reporter (seeded well-formed history of TestResult calls, TestCase/PlaceHolder/ErrorHolder subjects) drives seeded stacks of adapters over recording targets of every protocol flavour; virtual clock; degradation table as data in the model",
+         "seeded exploration: every startTest/outcome/stopTest reaches each terminal once and in order with the documented degradation, detail text survives conversion, failing never becomes passing, TestByTestResult calls back once per test at stopTest with that test's times/tags/details/status",
+         "TestResultDecorator/Tagger only over results that accept details=; progress() not issued; sampling, not proof", "3/C08"),
+ "C10": ("deterministic simulation: 1..4 simulated workers emit scripted status events; a seeded scheduler interleaves them into one stream and cuts the run with stopTestRun at a seeded point (crash analogue); the same stream feeds all three consumers; dict-of-records reference model",
+         "seeded exploration: every (test id, route code) reported exactly once at its final status or at stop, with last status, latest tags, first/last timestamps, chunks in arrival order; StreamSummary counters/lists/verdict agree",
+         "events after a final may be discarded or start a new test (both accepted); flush order unspecified; sampling, not proof", "3/C10"),
+ "C11": ("deterministic simulation: seeded trees of stream decorators (incl. StreamToQueue whose queue is drained at seeded points) over recording sinks, virtual clock for TimestampingStreamResult; each decorator modelled as a pure function on the event",
+         "seeded exploration: each sink receives exactly the model's calls in order, only the owned field altered, supplied timestamps untouched, missing ones filled from the virtual clock, failure callback only for fail/uxsuccess, caller's tag objects never mutated",
+         "sinks are well-behaved (aliasing observed through decorators' own writes); None and empty tag sets are equivalent; sampling, not proof", "3/C11"),
+ "C17": ("deterministic simulation of the reporting pipeline: seeded histories of tags/startTest/outcome/stopTest/startTestRun (incl. the startTest-less skip pair) into every TestResult implementation and adapter stack; two-set tag model as oracle, observed tags read at the recording targets / final stream events",
+         "seeded exploration: current_tags equals the model after every call; the tags a wrapped target or stream consumer sees at each outcome equal the reporter's current tags (plus a Tagger's own change below it)",
+         "new/gone disjoint; single reporter thread (interleavings of several reporters are C12); sampling, not proof", "3/C17"),
+ "C18": ("deterministic simulation: seeded histories of add_rule / startTestRun / stopTestRun / status on one StreamResultRouter, events optionally sent through an upstream StreamToQueue whose queue is drained into the router; 10-line routing function as model",
+         "seeded exploration: every event lands in exactly the sink the model names (or raises and lands nowhere), other fields unchanged, consuming rules strip exactly one segment (push/pop inverse), start/stop reach exactly the registered sinks once per run and immediately for rules added mid-run",
+         "one rule per prefix/test id (ambiguous rules are documented as undefined); sampling, not proof", "3/C18"),
 }
 
 NOT_APPLICABLE = [
